@@ -12,11 +12,11 @@ namespace Pypyr.C07
 open Pypyr Pypyr.Flow Pypyr.C04
 
 /-- A relation between the state before and the state after a piece of execution that is
-    transitive and holds whenever the watched keys `W` have the same values in both; the three
-    loop counters are not watched. -/
+    transitive and holds whenever the watched keys `W` have the same values in both and the ghost log
+    of escapes is the same; the three loop counters are not watched. -/
 structure CtxRel (W : List String) (R : St → St → Prop) : Prop where
   trans : ∀ {a b c}, R a b → R b c → R a c
-  same : ∀ (a b : St), (∀ k, k ∈ W → Ctx.get? b.ctx k = Ctx.get? a.ctx k) → R a b
+  same : ∀ (a b : St), (∀ k, k ∈ W → Ctx.get? b.ctx k = Ctx.get? a.ctx k) → b.escapes = a.escapes → R a b
   noRetry : "retryCounter" ∉ W
   noI : "i" ∉ W
   noWhile : "whileCounter" ∉ W
@@ -26,24 +26,24 @@ def Keeps (R : St → St → Prop) (b : Body) : Prop := ∀ s, R s (b s).1
 
 variable {W : List String} {R : St → St → Prop}
 
-theorem CtxRel.refl (G : CtxRel W R) (s : St) : R s s := G.same s s (fun _ _ => rfl)
+theorem CtxRel.refl (G : CtxRel W R) (s : St) : R s s := G.same s s (fun _ _ => rfl) rfl
 
-theorem rel_sameCtx (G : CtxRel W R) (a b : St) (h : b.ctx = a.ctx) : R a b :=
-  G.same a b (fun _ _ => by rw [h])
+theorem rel_sameCtx (G : CtxRel W R) (a b : St) (h : b.ctx = a.ctx) (he : b.escapes = a.escapes) : R a b :=
+  G.same a b (fun _ _ => by rw [h]) he
 
 theorem rel_set (G : CtxRel W R) (s : St) (k : String) (v : Val) (hk : k ∉ W) :
     R s { s with ctx := Ctx.set s.ctx k v } :=
-  G.same _ _ (fun _ hk' => ctx_get_set_ne _ _ _ _ (fun e => hk (e ▸ hk')))
+  G.same _ _ (fun _ hk' => ctx_get_set_ne _ _ _ _ (fun e => hk (e ▸ hk'))) rfl
 
 theorem rel_raiseNew (G : CtxRel W R) (s : St) (n m : String) : R s (raiseNew s n m).1 :=
-  rel_sameCtx G _ _ rfl
+  rel_sameCtx G _ _ rfl rfl
 
 theorem rel_raiseExc (G : CtxRel W R) (s : St) (e : Exc) : R s (raiseExc s e).1 :=
-  rel_sameCtx G _ _ rfl
+  rel_sameCtx G _ _ rfl rfl
 
 theorem rel_resetCounters (G : CtxRel W R) (fr : Frame) (c : CofCfg) (s : St) (hkey : c.key ∉ W) :
     R s (resetCounters fr c s) := by
-  apply G.same
+  refine G.same _ _ ?_ rfl
   intro k hk
   have hset : ∀ (cx : Ctx) (k' : String) (v : Val), k' ∉ W →
       Ctx.get? (Ctx.set cx k' v) k = Ctx.get? cx k :=
@@ -52,6 +52,20 @@ theorem rel_resetCounters (G : CtxRel W R) (fr : Frame) (c : CofCfg) (s : St) (h
   simp only []
   cases fr.whileC <;> cases fr.forI <;> cases fr.retryC <;> simp only [] <;>
     split <;> simp [hset, hkey, G.noRetry, G.noI, G.noWhile]
+
+theorem rel_resetLoopCounters (G : CtxRel W R) (fr : Frame) (s : St) : R s (resetLoopCounters fr s) := by
+  refine G.same _ _ ?_ rfl
+  intro k hk
+  have hset : ∀ (cx : Ctx) (k' : String) (v : Val), k' ∉ W →
+      Ctx.get? (Ctx.set cx k' v) k = Ctx.get? cx k :=
+    fun cx k' v hn => ctx_get_set_ne cx k k' v (fun e => hn (e ▸ hk))
+  unfold resetLoopCounters
+  simp only []
+  cases fr.whileC <;> cases fr.forI <;> cases fr.retryC <;> simp [hset, G.noRetry, G.noI, G.noWhile]
+
+/-- an error that is already handled is not logged: the ghost log is untouched. -/
+theorem logEscape_handled (d : StepDef) (s1 : St) (e : ExcV) : logEscape d s1 e true = s1 := by
+  simp [logEscape]
 
 /-! ### invoke_step -/
 
@@ -71,13 +85,17 @@ theorem invokeStep_keeps (G : CtxRel W R) (fr : Frame) (body : Body) (callee : C
     obtain ⟨s2, r2⟩ := q
     have h2 : R s1 s2 := by have := hc c s1; rw [hcs] at this; exact this
     have h3 : R s2 (resetCounters fr c s2) := rel_resetCounters G fr c s2 (hkey s s1 c hbs)
-    cases r2 <;> exact G.trans h1 (G.trans h2 h3)
+    have h4 : R s2 (raiseNew (resetLoopCounters fr s2) "AssertionError" "").1 :=
+      G.trans (rel_resetLoopCounters G fr s2) (rel_raiseNew G _ _ _)
+    split
+    · cases r2 <;> exact G.trans h1 (G.trans h2 h3)
+    · cases r2 <;> first | exact G.trans h1 (G.trans h2 h4) | exact G.trans h1 h2
   | _ => exact h1
 
 /-! ### retry -/
 
 theorem retryIter_keeps (G : CtxRel W R) (cfg : RetryCfg) (fr : Frame) (inner : Frame → Body)
-    (max : Option Nat) (hi : ∀ fr, Keeps R (inner fr)) :
+    (max : Option Int) (hi : ∀ fr, Keeps R (inner fr)) :
     ∀ (fuel k : Nat) (bo : BackoffState), Keeps R (retryIter cfg fr inner max fuel k bo) := by
   intro fuel
   induction fuel with
@@ -99,8 +117,30 @@ theorem retryIter_keeps (G : CtxRel W R) (cfg : RetryCfg) (fr : Frame) (inner : 
       all_goals first
         | exact h1
         | exact G.trans h1 (rel_raiseExc G _ _)
-        | (refine G.trans h1 (G.trans ?_ (ih _ _ _)); exact rel_sameCtx G _ _ rfl)
+        | exact G.trans h1 (rel_sameCtx G _ _ rfl rfl)
+        | (refine G.trans h1 (G.trans ?_ (ih _ _ _)); exact rel_sameCtx G _ _ rfl rfl)
     | _ => exact h1
+
+theorem retryFaulty_keeps (G : CtxRel W R) (cfg : RetryCfg) (fr : Frame) (inner : Frame → Body)
+    (max : Option Int) (y : Bool) (hi : ∀ fr, Keeps R (inner fr)) : Keeps R (retryFaulty cfg fr inner max y) := by
+  intro s
+  unfold retryFaulty
+  simp only []
+  generalize hin : inner { fr with retryC := some 1 } { s with ctx := Ctx.set s.ctx "retryCounter" (.int 1) } = p
+  obtain ⟨s1, r⟩ := p
+  have h1 : R s s1 := by
+    have := hi { fr with retryC := some 1 } { s with ctx := Ctx.set s.ctx "retryCounter" (.int 1) }
+    rw [hin] at this
+    exact G.trans (rel_set G _ _ _ G.noRetry) this
+  cases r with
+  | err e handled =>
+    simp only []
+    repeat' split
+    all_goals first
+      | exact h1
+      | exact G.trans h1 (rel_raiseExc G _ _)
+      | exact G.trans h1 (rel_raiseNew G _ _ _)
+  | _ => exact h1
 
 theorem retryLoop_keeps (G : CtxRel W R) (cfg : RetryCfg) (fr : Frame) (inner : Frame → Body) (fuel : Nat)
     (hi : ∀ fr, Keeps R (inner fr)) : Keeps R (retryLoop cfg fr inner fuel) := by
@@ -113,11 +153,17 @@ theorem retryLoop_keeps (G : CtxRel W R) (cfg : RetryCfg) (fr : Frame) (inner : 
     | exact G.trans h0 (rel_raiseExc G _ _)
     | exact G.trans h0 (rel_raiseNew G _ _ _)
     | exact G.trans h0 (retryIter_keeps G cfg fr inner _ hi _ _ _ _)
+    | exact G.trans h0 (retryFaulty_keeps G cfg fr inner _ _ hi _)
+    | exact h0
 
 /-! ### run / skip / swallow -/
 
+/-- `hrec`: recording an escaped error (ghost log entry + `save_error`) when `swallow` formats;
+    `hlogfail`: the escape is logged but `swallow` fails to format (nothing is saved, that error propagates). -/
 theorem runConditional_keeps (G : CtxRel W R) (d : StepDef) (inner : Body)
-    (hsave : ∀ s e sw, R s (saveError d s e sw).1) (hi : Keeps R inner) :
+    (hrec : ∀ s e sw, fmtB s d.swallow = .ok sw → R s (saveError d (logEscape d s e false) e sw).1)
+    (hlogfail : ∀ s e x, fmtB s d.swallow = .error x → R s (logEscape d s e false))
+    (hi : Keeps R inner) :
     Keeps R (runConditional d inner) := by
   intro s
   unfold runConditional
@@ -134,20 +180,26 @@ theorem runConditional_keeps (G : CtxRel W R) (d : StepDef) (inner : Body)
       cases r with
       | err e handled =>
         simp only []
-        split
-        · exact G.trans h1 (rel_raiseExc G _ _)
-        · rename_i sw _
-          generalize hsv : (if handled = true then (s1, Res.ok) else saveError d s1 e sw) = q
-          obtain ⟨s2, r2⟩ := q
-          have h2 : R s1 s2 := by
-            by_cases hh : handled = true
-            · simp [hh] at hsv; rw [← hsv.1]; exact G.refl _
-            · simp [hh] at hsv
-              have := hsave s1 e sw
-              rw [hsv] at this; exact this
-          cases r2 <;> simp only [] <;> first
-            | (split <;> exact G.trans h1 h2)
-            | exact G.trans h1 h2
+        cases handled with
+        | true =>
+          rw [logEscape_handled]
+          split
+          · exact G.trans h1 (rel_raiseExc G _ _)
+          · simp only [if_true]; split <;> exact h1
+        | false =>
+          simp only [Bool.false_eq_true, if_false]
+          split
+          · rename_i x hx
+            rw [fmtB_logEscape] at hx
+            exact G.trans h1 (G.trans (hlogfail s1 e x hx) (rel_raiseExc G _ _))
+          · rename_i sw hsw
+            rw [fmtB_logEscape] at hsw
+            have h2 := hrec s1 e sw hsw
+            generalize saveError d (logEscape d s1 e false) e sw = q at h2
+            obtain ⟨s2, r2⟩ := q
+            cases r2 <;> simp only [] <;> first
+              | (split <;> exact G.trans h1 h2)
+              | exact G.trans h1 h2
       | _ => exact h1
 
 /-! ### foreach -/
@@ -215,7 +267,7 @@ theorem whileIter_keeps (G : CtxRel W R) (cfg : WhileCfg) (fr : Frame) (inner : 
         | exact h1
         | exact G.trans h1 (rel_raiseExc G _ _)
         | exact G.trans h1 (rel_raiseNew G _ _ _)
-        | (refine G.trans h1 (G.trans ?_ (ih _ _)); exact rel_sameCtx G _ _ rfl)
+        | (refine G.trans h1 (G.trans ?_ (ih _ _)); exact rel_sameCtx G _ _ rfl rfl)
     | _ => exact h1
 
 theorem whileLoop_keeps (G : CtxRel W R) (cfg : WhileCfg) (fr : Frame) (inner : Frame → Body) (fuel : Nat)
@@ -234,7 +286,8 @@ theorem whileLoop_keeps (G : CtxRel W R) (cfg : WhileCfg) (fr : Frame) (inner : 
 /-! ### the whole decorated step -/
 
 theorem stepCore_keeps (G : CtxRel W R) (d : StepDef) (body : Body) (callee : CofCfg → Body) (fuel : Nat)
-    (hsave : ∀ s e sw, R s (saveError d s e sw).1)
+    (hrec : ∀ s e sw, fmtB s d.swallow = .ok sw → R s (saveError d (logEscape d s e false) e sw).1)
+    (hlogfail : ∀ s e x, fmtB s d.swallow = .error x → R s (logEscape d s e false))
     (hb : Keeps R body) (hc : ∀ c, Keeps R (callee c))
     (hkey : ∀ s s1 c, body s = (s1, .call c) → c.key ∉ W) :
     Keeps R (stepCore d body callee fuel) := by
@@ -247,7 +300,7 @@ theorem stepCore_keeps (G : CtxRel W R) (d : StepDef) (body : Body) (callee : Co
     · exact retryLoop_keeps G _ _ _ _ hinv
     · exact hinv fr
   have hcond : ∀ fr, Keeps R (conditionalLayer d body callee fuel fr) :=
-    fun fr => runConditional_keeps G d _ hsave (hret fr)
+    fun fr => runConditional_keeps G d _ hrec hlogfail (hret fr)
   have hloop : ∀ fr, Keeps R (foreachLayer d body callee fuel fr) :=
     fun fr => foreachOrConditional_keeps G d fr _ hcond
   unfold stepCore
@@ -256,14 +309,15 @@ theorem stepCore_keeps (G : CtxRel W R) (d : StepDef) (body : Body) (callee : Co
   · exact hloop {}
 
 theorem runStepWith_keeps (G : CtxRel W R) (d : StepDef) (body : Body) (callee : CofCfg → Body) (fuel : Nat)
-    (hsave : ∀ s e sw, R s (saveError d s e sw).1)
+    (hrec : ∀ s e sw, fmtB s d.swallow = .ok sw → R s (saveError d (logEscape d s e false) e sw).1)
+    (hlogfail : ∀ s e x, fmtB s d.swallow = .error x → R s (logEscape d s e false))
     (hb : Keeps R body) (hc : ∀ c, Keeps R (callee c))
     (hkey : ∀ s s1 c, body s = (s1, .call c) → c.key ∉ W)
     (hin : ∀ s, R s (setIn d s)) (hout : ∀ s, R s (unsetIn d s)) :
     Keeps R (runStepWith d body callee fuel) := by
   intro s
   rw [runStepWith_eq]
-  have h1 := stepCore_keeps G d body callee fuel hsave hb hc hkey (setIn d s)
+  have h1 := stepCore_keeps G d body callee fuel hrec hlogfail hb hc hkey (setIn d s)
   generalize stepCore d body callee fuel (setIn d s) = p at h1
   obtain ⟨s1, r⟩ := p
   cases r with
@@ -273,7 +327,8 @@ theorem runStepWith_keeps (G : CtxRel W R) (d : StepDef) (body : Body) (callee :
 /-- the whole of `Step.run_step`, the `description` notification included: an error formatting the
     description is raised from the state with the `in` arguments set, nothing else touched. -/
 theorem runStepDescribed_keeps (G : CtxRel W R) (d : StepDef) (body : Body) (callee : CofCfg → Body) (fuel : Nat)
-    (hsave : ∀ s e sw, R s (saveError d s e sw).1)
+    (hrec : ∀ s e sw, fmtB s d.swallow = .ok sw → R s (saveError d (logEscape d s e false) e sw).1)
+    (hlogfail : ∀ s e x, fmtB s d.swallow = .error x → R s (logEscape d s e false))
     (hb : Keeps R body) (hc : ∀ c, Keeps R (callee c))
     (hkey : ∀ s s1 c, body s = (s1, .call c) → c.key ∉ W)
     (hin : ∀ s, R s (setIn d s)) (hout : ∀ s, R s (unsetIn d s)) :
@@ -281,8 +336,10 @@ theorem runStepDescribed_keeps (G : CtxRel W R) (d : StepDef) (body : Body) (cal
   intro s
   unfold runStepDescribed
   split
-  · exact G.trans (hin s) (rel_raiseExc G _ _)
-  · exact runStepWith_keeps G d body callee fuel hsave hb hc hkey hin hout s
+  · exact rel_raiseExc G _ _
+  · split
+    · exact G.trans (hin s) (rel_raiseExc G _ _)
+    · exact runStepWith_keeps G d body callee fuel hrec hlogfail hb hc hkey hin hout s
 
 /-! ### the two instances for `runErrors` -/
 
@@ -291,7 +348,7 @@ def SameRE (a b : St) : Prop := Ctx.get? b.ctx "runErrors" = Ctx.get? a.ctx "run
 
 theorem sameRE : CtxRel ["runErrors"] SameRE where
   trans := fun h1 h2 => h2.trans h1
-  same := fun _ _ h => h "runErrors" (by simp)
+  same := fun _ _ h _ => h "runErrors" (by simp)
   noRetry := by decide
   noI := by decide
   noWhile := by decide
@@ -301,7 +358,7 @@ def PrefixRE (a b : St) : Prop := runErrorsOf a <+: runErrorsOf b
 
 theorem prefixRE : CtxRel ["runErrors"] PrefixRE where
   trans := fun h1 h2 => List.IsPrefix.trans h1 h2
-  same := fun a b h => by
+  same := fun a b h _ => by
     unfold PrefixRE
     rw [runErrorsOf_congr a b (h "runErrors" (by simp))]
     exact List.prefix_refl _
@@ -319,5 +376,16 @@ theorem saveError_prefix (d : StepDef) (s : St) (e : ExcV) (sw : Bool) :
       unfold runErrorsOf; rw [h, ctx_get_set_self]; rfl
     rw [this]
     exact List.prefix_append _ _
+
+/-- recording (ghost log entry + `save_error`) only appends to `runErrors`; logging alone leaves it. -/
+theorem record_prefix (d : StepDef) (s : St) (e : ExcV) (sw : Bool) :
+    PrefixRE s (saveError d (logEscape d s e false) e sw).1 := by
+  have h := saveError_prefix d (logEscape d s e false) e sw
+  unfold PrefixRE at h ⊢
+  rw [runErrorsOf_logEscape] at h
+  exact h
+
+theorem log_prefix (d : StepDef) (s : St) (e : ExcV) : PrefixRE s (logEscape d s e false) := by
+  unfold PrefixRE; rw [runErrorsOf_logEscape]; exact List.prefix_refl _
 
 end Pypyr.C07
